@@ -88,4 +88,10 @@ def NamesFormat (e : Str) (f : Nat) : Prop :=
 /-- `e` is a wildcard: `*/*`, `type/*` or `*`. -/
 def IsWildcard (e : Str) : Prop := ElementWithSubtype e [42]
 
+/-- An Accept header written from its list of elements (`strings.Join(es, ",")`). -/
+def joinComma : List Str → Str
+  | [] => []
+  | [e] => e
+  | e :: e' :: es => e ++ 44 :: joinComma (e' :: es)
+
 end PB.Dsd
